@@ -1,6 +1,7 @@
 package c04
 
 import (
+	"bytes"
 	"fmt"
 	"runtime"
 	"runtime/debug"
@@ -19,6 +20,21 @@ const (
 )
 
 func allocBound(n int) uint64 { return allocBase + allocPerByte*uint64(n) }
+
+// allocPerLine is the extra allowance per line of text for the krb5.conf parser: config.NewFromScanner compiles five
+// regular expressions for every line it reads (about 16 KiB of short-lived garbage per line, however short the line).
+// That is wasteful but linear in the input - a megabyte of newlines costs CPU time, not memory - so it is not what
+// the property calls out of proportion; without the allowance a fuzzer-grown file of 3 000 empty lines trips the bound.
+const allocPerLine = 32 << 10
+
+// allocBoundFor is the bound for one case.
+func allocBoundFor(c Case) uint64 {
+	b := allocBound(len(c.In))
+	if c.EP == "krb5conf-parse" {
+		b += allocPerLine * uint64(bytes.Count(c.In, []byte{'\n'})+1)
+	}
+	return b
+}
 
 // slowCall is the in-process duration above which a call that did return is reported (the hang
 // watchdog proper lives in the parent process, which can kill a worker; this catches calls that
@@ -132,16 +148,16 @@ func evalLocal(c Case) (v evid.Verdict, inf info) {
 		}
 		return v, inf
 	}
-	if inf.Alloc > profileRefresh && inf.Alloc <= allocBound(len(c.In)) {
+	if inf.Alloc > profileRefresh && inf.Alloc <= allocBoundFor(c) {
 		refreshProfileBaseline()
 	}
-	if inf.Alloc > allocBound(len(c.In)) {
+	if inf.Alloc > allocBoundFor(c) {
 		inf.Outcome = "fail"
 		// find the allocation site: run the call again with the heap profile watching
 		frame, dep := allocSite(c, ep)
 		return evid.Fail(sig("alloc", c.EP, frame, dep),
-			"%s allocated %d bytes (%.1f MiB) for an input of %d bytes; the bound is 16 MiB + 1024 x input = %d bytes. Largest allocation site: %s\nop=%q in=%s",
-			c.EP, inf.Alloc, float64(inf.Alloc)/(1<<20), len(c.In), allocBound(len(c.In)), frame, c.Op, clip(c.In)), inf
+			"%s allocated %d bytes (%.1f MiB) for an input of %d bytes; the bound is 16 MiB + 1024 x input (+ 32 KiB per line of krb5.conf text) = %d bytes. Largest allocation site: %s\nop=%q in=%s",
+			c.EP, inf.Alloc, float64(inf.Alloc)/(1<<20), len(c.In), allocBoundFor(c), frame, c.Op, clip(c.In)), inf
 	}
 	if inf.Dur > slowCall {
 		inf.Outcome = "fail"
